@@ -17,6 +17,8 @@ pub enum Dev {
     Dup,
     Hold(i64),
     Partition,
+    /// delivered now and once more k ticks later (a late duplicate)
+    DupHold(i64),
 }
 
 #[derive(Serialize, Deserialize, Clone, Debug)]
@@ -26,6 +28,9 @@ pub struct DevCase {
     pub reverse_salts: bool,
     /// (decision point, deviation)
     pub devs: Vec<(usize, Dev)>,
+    /// optional outage of the whole network: (start second, length in seconds)
+    #[serde(default)]
+    pub outage: Option<(i64, i64)>,
 }
 
 pub const PREFIX: usize = 14;
@@ -64,6 +69,15 @@ pub fn run_dev(c: &DevCase) -> CaseResult {
     let mut last_effect = net.now;
     let mut pump = |net: &mut Net<Packet>, point: &mut usize, held: &mut Vec<(i64, Wire)>, partition_until: &mut i64, last_effect: &mut i64| -> Result<(), Fail> {
         let now = net.now;
+        if let Some((start, len)) = c.outage {
+            let rel = now - START_TIME;
+            if rel >= start && rel < start + len {
+                net.queue.clear(); // total outage: nothing gets through, held datagrams are lost as well
+                held.retain(|h| h.0 > START_TIME + start + len);
+                *last_effect = START_TIME + start + len;
+                return Ok(());
+            }
+        }
         let mut i = 0;
         while i < held.len() {
             if held[i].0 <= now {
@@ -99,6 +113,11 @@ pub fn run_dev(c: &DevCase) -> CaseResult {
                     *partition_until = now + 125;
                     *last_effect = now + 125;
                 }
+                Some(Dev::DupHold(k)) => {
+                    held.push((now + k, w.clone()));
+                    net.hand_over(w);
+                    *last_effect = now + k;
+                }
                 None => {
                     net.hand_over(w);
                 }
@@ -129,7 +148,8 @@ pub fn run_dev(c: &DevCase) -> CaseResult {
         pump(&mut net, &mut point, &mut held, &mut partition_until, &mut last_effect)?;
         no_self(&net)?;
         t += 1;
-        let pending_devs = c.devs.iter().any(|d| d.0 >= point && d.0 < PREFIX) && t < 40;
+        let outage_pending = c.outage.map(|(start, len)| net.now - START_TIME < start + len).unwrap_or(false);
+        let pending_devs = (c.devs.iter().any(|d| d.0 >= point && d.0 < PREFIX) && t < 40) || outage_pending;
         if reliable_left.is_none() && !pending_devs && held.is_empty() && net.now >= partition_until && net.now >= last_effect {
             reliable_left = Some(300 + 120 + 10);
         }
@@ -181,12 +201,27 @@ pub fn cases(tier: Tier) -> Vec<DevCase> {
     let dials: &[&str] = tier.pick(&["a", "both"][..], &["a", "b", "both", "three"][..]);
     for dial in dials {
         for reverse_salts in [false, true] {
-            v.push(DevCase { dial: dial.to_string(), reverse_salts, devs: vec![] });
+            v.push(DevCase { dial: dial.to_string(), reverse_salts, devs: vec![], outage: None });
             let points = if *dial == "three" { PREFIX } else { 10 };
             for p in 0..points {
                 for d in menu() {
-                    v.push(DevCase { dial: dial.to_string(), reverse_salts, devs: vec![(p, d)] });
+                    v.push(DevCase { dial: dial.to_string(), reverse_salts, devs: vec![(p, d)], outage: None });
                 }
+            }
+            // late duplicates (a copy arrives after linger end / retry budget) alone and followed by an outage longer than the
+            // peer timeout, and plain deviations followed by such an outage
+            if *dial != "three" {
+                for p in 0..6 {
+                    for k in [61i64, 70, 121, 130] {
+                        for outage in [None, Some((200i64, 320i64)), Some((260, 430))] {
+                            v.push(DevCase { dial: dial.to_string(), reverse_salts, devs: vec![(p, Dev::DupHold(k))], outage });
+                        }
+                    }
+                    for d in [Dev::Drop, Dev::Hold(61), Dev::Hold(130)] {
+                        v.push(DevCase { dial: dial.to_string(), reverse_salts, devs: vec![(p, d)], outage: Some((150, 320)) });
+                    }
+                }
+                v.push(DevCase { dial: dial.to_string(), reverse_salts, devs: vec![], outage: Some((30, 320)) });
             }
             // two deviations
             let pts2 = tier.pick(6, points);
@@ -198,7 +233,7 @@ pub fn cases(tier: Tier) -> Vec<DevCase> {
                 for q in (p + 1)..pts2 {
                     for d1 in &m2 {
                         for d2 in &m2 {
-                            v.push(DevCase { dial: dial.to_string(), reverse_salts, devs: vec![(p, d1.clone()), (q, d2.clone())] });
+                            v.push(DevCase { dial: dial.to_string(), reverse_salts, devs: vec![(p, d1.clone()), (q, d2.clone())], outage: None });
                         }
                     }
                 }
